@@ -465,7 +465,9 @@ def parenttype(pid):
                 pr = pr or Prov(f)
                 parent = pr.operand(c.term["args"][1])
                 atoms = _guards(ctx, f).atoms_at(("t", bb))
-                rx = re.compile(r"dir_entry\(.*,%s\)\.obj_type is (not ObjType::Stream|ObjType::(Storage|Root))$" % re.escape(parent))
+                # (a provenance cut off at the depth limit shows `_` for an argument: it stands for anything)
+                prx = re.sub(r"(?<=[(,])_(?=\\?[),])", ".*", re.escape(parent))
+                rx = re.compile(r"dir_entry\(.*,%s\)\.obj_type is (not ObjType::Stream|ObjType::(Storage|Root))$" % prx)
                 key = "R-PARENT/%s" % f.path
                 if inner_ok or any(rx.search(a) for a in atoms):
                     res.ok({"function": f.path, "line": c.line, "parent": parent[:80], "tested": "inside insert_dir_entry" if inner_ok else "at the call site"}, nontrivial=True)
@@ -640,7 +642,7 @@ def _link_handed_on(f, v, pr, var, link):
                 loads.add(st["place"]["local"])
     if not loads:
         return set()
-    taint = forward_taint(f, loads, through_refs=False)
+    taint = forward_taint(f, loads, through_calls=True, through_refs=False)
     # sinks: values written as a link (write_le_u32 payload, stores to link fields)
     sink_locals = set()
     for c in v.calls.values():
@@ -656,7 +658,7 @@ def _link_handed_on(f, v, pr, var, link):
         for i, st in enumerate(blk["stmts"]):
             if st["s"] == "assign" and not st["place"]["proj"] and st["place"]["local"] not in loads and any(p_["local"] in taint for p_ in rv_places(st["rv"])):
                 d = st["place"]["local"]
-                if forward_taint(f, {d}, through_refs=False) & sink_locals:
+                if forward_taint(f, {d}, through_calls=True, through_refs=False) & sink_locals:
                     out.add(("s", bb, i))
     return out
 
